@@ -84,6 +84,9 @@ REST_SENDS = {
     'R_UPDBAD': ('POST', 'send/update', {'attr': {'1': 0, '2': [], '3': 'not-an-address', '5': 100}, 'nlri': ['198.51.100.0/24']}),
     'R_UPDNOATTR': ('POST', 'send/update', {'nlri': ['198.51.100.0/24']}),
     'R_BINBAD': ('POST', 'send/bin_update', {'binary_data': 'zz'}),
+    # read-only requests outside /v1/peer/: the API root (no credentials needed) and the peer list - they change nothing
+    'R_ROOT': ('GET', '/v1/', None, None),
+    'R_PEERS': ('GET', '/v1/peers', None),
 }
 
 
@@ -153,8 +156,8 @@ def apply_event(w, ev, rng=None):
         code, body = w.start()
         ok = (code, body)
     elif name in REST_SENDS:
-        method, path, body = REST_SENDS[name]
-        ok = w.rest(method, path, json_body=body)
+        method, path, body = REST_SENDS[name][:3]
+        ok = w.rest(method, path, json_body=body, **({'headers': REST_SENDS[name][3]} if len(REST_SENDS[name]) > 3 else {}))
     elif name in MSGS:
         trs = w.live()
         ok = idx < len(trs) and w.deliver(MSGS[name][0], trs[idx])
